@@ -40,10 +40,14 @@ fn candidates(i: &Inner, only_objs: Option<&[u8]>, dormant_pool_threads: usize, 
             _ => {}
         }
     }
-    // a pool thread was lost to an injected panic and no scheduling call has been made since
-    let quiet_after_panic = i.quiet_panic_variant && i.panic_clock != 0;
     // (1) calls that have not returned
     for (id, o) in i.ops.iter().enumerate() {
+        if o.kind == Kind::Sync && o.panicked && o.inv != 0 && o.ret == 0 && !o.call_unwound && in_scope(o.obj) && i.callers.iter().any(|c| c.stage == Stage::InCall(id)) {
+            // the closure of this very call panicked (wherever it was run): the call ends by propagating that, it does not hang
+            waiting_things += 1;
+            out.push(Cand { op: Some(id), obj: o.obj, prop: "C04", clause: "sync-hang-after-own-panic", inv: o.inv, ret: u64::MAX, detail: format!("the closure of sync #{} on o{} panicked while it was run for the caller, but the call never returned to its caller (it should have propagated the failure)", id, o.obj) });
+            continue;
+        }
         if o.inv == 0 || o.ret != 0 || o.panicked || o.cancelled || !in_scope(o.obj) {
             continue;
         }
@@ -106,12 +110,6 @@ fn candidates(i: &Inner, only_objs: Option<&[u8]>, dormant_pool_threads: usize, 
             _ => continue,
         }
         waiting_things += 1;
-        if o.start == 0 && quiet_after_panic {
-            // queued before (or while) a pool thread was lost to the panic, and nothing has been scheduled since the panic finished
-            // unwinding: the library looks at its schedule again (and replaces the thread) at the next scheduling call or wake-up,
-            // which no property requires to exist. (Operations that had started and are suspended do get such a wake-up.)
-            continue;
-        }
         if o.start == 0 {
             // not started
             if let Some(g) = o.waiting_gate {
@@ -142,11 +140,11 @@ fn candidates(i: &Inner, only_objs: Option<&[u8]>, dormant_pool_threads: usize, 
             // (a thread that is blocked in sync() on this object is a runner too: it takes a rescheduled queue over)
             // (not for a future_sync operation: that one is polled by the task that owns its future, nobody else)
             let sync_waiter = o.kind != Kind::FutSync && i.ops.iter().any(|a| a.obj == o.obj && a.kind == Kind::Sync && a.inv != 0 && a.ret == 0 && a.start == 0 && !a.panicked);
-            if i.gates[g].open && fs_pollable(id, o) && (!quiet_after_panic || (i.gates[g].opened_in_final && i.panic_clock < i.final_stage_clock)) && (pool_capacity || sync_waiter || poller_can_resume(id, o)) {
+            if i.gates[g].open && fs_pollable(id, o) && (pool_capacity || sync_waiter || poller_can_resume(id, o)) {
                 out.push(Cand { op: Some(id), obj: o.obj, prop: "C06", clause: "wake-lost", inv: o.inv, ret: o.ret, detail: format!("{:?} #{} on o{} is suspended on gate g{} which was opened at t={} but was never resumed", o.kind, id, o.obj, g, i.gates[g].opened_at) });
             }
         }
-        else if o.waiting_self && o.start != 0 && !quiet_after_panic && fs_pollable(id, o) {
+        else if o.waiting_self && o.start != 0 && fs_pollable(id, o) {
             // woke itself during the poll: it is never legitimately waiting
             if pool_capacity || poller_can_resume(id, o) {
                 out.push(Cand { op: Some(id), obj: o.obj, prop: "C06", clause: "wake-lost", inv: o.inv, ret: o.ret, detail: format!("{:?} #{} on o{} woke its own waker during a poll and returned Pending, but was never polled again", o.kind, id, o.obj) });
@@ -443,9 +441,6 @@ pub fn final_quiescence(w: &Arc<World>, handles: &[Option<ObjH>]) {
                 // every pool thread is stuck inside a job that waits for work that itself needs a pool thread:
                 // a resource deadlock of the generated program, which no property promises to avoid
                 w.note("SATURATED", "pool-exhausted-by-blocked-jobs", None, None, format!("callers stuck: {}", stages.join(", ")));
-            } else if w.with(|i| i.quiet_panic_variant && i.panic_clock != 0) {
-                // work that was queued when the pool lost a thread to the injected panic, with nothing scheduled afterwards
-                w.note("SATURATED", "queued-when-a-pool-thread-was-lost", None, None, format!("callers stuck: {}", stages.join(", ")));
             } else {
                 w.note("HARNESS", "unexplained-hang", None, None, format!("callers stuck: {}", stages.join(", ")));
             }
@@ -461,8 +456,7 @@ pub fn final_quiescence(w: &Arc<World>, handles: &[Option<ObjH>]) {
                 continue;
             }
             // with no pool thread, leftovers (e.g. the slot jobs of cancelled future_sync calls) stay queued until somebody syncs
-            // (the same goes for a pool that lost its thread to a panic and has not been asked for anything since)
-            if pool == 0 || w.with(|i| i.pool_zero || (i.quiet_panic_variant && i.panic_clock != 0)) {
+            if pool == 0 || w.with(|i| i.pool_zero) {
                 continue;
             }
             let r = h.try_sync(|_p| ());
